@@ -306,8 +306,11 @@ def run_hcb(case, ctx):
     rng, pr, s = case_rng(ctx.seed, "C03", "hcb", case["i"])
     n_orb = pr.choice([1, 2, 3] if ctx.tier == "quick" else [1, 2, 3, 4])
     n = 2 * n_orb
-    H = fock.random_hermitian_fermion_terms(rng, n_orb, restricted=True)
+    # integrals with the full 8-fold symmetry of real orbitals, with only the symmetries Hermiticity demands, or complex
+    flavour = ["eightfold", "hermitian_only", "complex"][case["i"] % 3]
+    H = fock.random_hermitian_fermion_terms(rng, n_orb, restricted=True, eightfold=(flavour == "eightfold"), cplx=(flavour == "complex"))
     Hm = fock.fermion_terms_matrix(H, n)
+    assert np.max(np.abs(Hm - Hm.conj().T)) < 1e-10
     # seniority-zero determinants: orbital k doubly occupied or empty; pair index = sum n_k 2^(n_orb-1-k)
     idx = []
     for pi in range(2 ** n_orb):
@@ -320,7 +323,8 @@ def run_hcb(case, ctx):
     q = enc(H, "HCB", n)
     got = qmat(q, n_orb)
     ctx.check("hcb_matrix", refsim.dist(got, P) < 1e-8, "HCB: qubit operator is not the Hamiltonian projected on the paired-electron space",
-              lambda: {"n_orb": n_orb, "seed_case": case["i"], "max_diff": refsim.dist(got, P)})
+              lambda: {"n_orb": n_orb, "seed_case": case["i"], "integrals": flavour, "max_diff": refsim.dist(got, P)})
+    ctx.tab("hcb_integrals", flavour)
     ctx.nontrivial(("hcb", n_orb, case["i"]))
     ctx.sample({"sub": "hcb", "n_orb": n_orb, "terms": len(H)})
 
@@ -330,7 +334,8 @@ def run_comb(case, ctx):
     rng, pr, s = case_rng(ctx.seed, "C03", "comb", case["i"])
     n_orb = pr.choice([2, 3] if ctx.tier == "quick" else [2, 3, 4])
     n = 2 * n_orb
-    H = fock.random_hermitian_fermion_terms(rng, n_orb, restricted=pr.random() < 0.6)
+    flavour = ["eightfold", "hermitian_only", "complex"][case["i"] % 3]
+    H = fock.random_hermitian_fermion_terms(rng, n_orb, restricted=pr.random() < 0.6, eightfold=(flavour == "eightfold"), cplx=(flavour == "complex"))
     Hm = fock.fermion_terms_matrix(H, n)
     for na in range(0, n_orb + 1):
         for nb in range(0, n_orb + 1):
